@@ -286,46 +286,50 @@ def r5_mate_scores(ctx):
     facts = ctx.facts
     name = EV + 'score'
     ro = {EV + 'game_ending', EV + 'board_material_score', BOARD + '::max_seen_position_count'}
-    outs = Engine(facts, readonly=ro).run(name)
     ctx.touch(name)
     ww, bw = facts.consts.get(EV + 'WHITE_WINS'), facts.consts.get(EV + 'BLACK_WINS')
     ge = 'chess::evaluate::GameEnding'
     dv = {facts.variant_discr(ge, n): n for n in ('Checkmate', 'Stalemate', 'Draw')}
-    cd = {facts.variant_discr(COLOR, c): c for c in ('White', 'Black')}
+    from sa.evalterm import ev, Unevaluable
+    from sa.sym import wrap_int
     seen = {}
-    for o in outs:
-        if o.kind != 'return':
-            continue
-        conds = dict(o.conds)
-        g = [a for a in conds if a[0] == 'discr' and a[1][0] == 'fld' and a[1][2] == 'Some.0' and a[1][1][0] == 'call' and a[1][1][1] == EV + 'game_ending']
-        if not g:
-            continue
-        verdict = dv.get(conds[g[0]])
-        if verdict is None:
-            continue
-        # the ending must be asked for the side whose score is computed
-        ge_call = g[0][1][1]
-        if verdict == 'Checkmate':
-            cv = conds.get(('discr', ('p', 3)))
-            col = cd.get(cv)
-            if col is None and isinstance(cv, tuple) and cv[0] == 'not':
-                rest = [c for d, c in cd.items() if d not in cv[1]]
-                col = rest[0] if len(rest) == 1 else None
-            seen[('Checkmate', col)] = (o.value, ge_call)
-        else:
-            seen[(verdict, None)] = (o.value, ge_call)
-    d16 = ('cast', ('p', 4), 'i16')
-    exp = {('Checkmate', 'White'): ('bin', 'Sub', C(bw), d16), ('Checkmate', 'Black'): ('bin', 'Add', C(ww), d16),
-           ('Stalemate', None): C(0), ('Draw', None): C(0)}
-    for k, want in exp.items():
-        got = seen.get(k)
-        ok = got is not None and (got[0] == want or (k[1] == 'Black' and got[0] == ('bin', 'Add', d16, C(ww))))
-        ctx.ob(rule, name, '%s%s -> %s' % (k[0], (' of ' + k[1]) if k[1] else '', show(got[0]) if got else 'missing'), ok,
-               found=show(got[0]) if got else None, expected=show(want),
+    # the function is specialised on the scored side (so `if`, `match` and table look-ups indexed by the colour all fold) and the value
+    # returned on each verdict is evaluated for every remaining depth 0..255
+    for col in ('White', 'Black'):
+        outs = Engine(facts, readonly=ro).run(name, args=[None, None, COLORS[col], None])
+        for o in outs:
+            if o.kind != 'return':
+                continue
+            conds = dict(o.conds)
+            g = [a for a in conds if a[0] == 'discr' and a[1][0] == 'fld' and a[1][2] == 'Some.0' and a[1][1][0] == 'call' and a[1][1][1] == EV + 'game_ending']
+            if not g:
+                continue
+            verdict = dv.get(conds[g[0]])
+            if verdict is None:
+                continue
+            seen.setdefault((verdict, col), []).append((o.value, g[0][1][1]))
+    exp = {('Checkmate', 'White'): (lambda d: bw - d, 'BLACK_WINS - depth'), ('Checkmate', 'Black'): (lambda d: ww + d, 'WHITE_WINS + depth'),
+           ('Stalemate', 'White'): (lambda d: 0, '0'), ('Stalemate', 'Black'): (lambda d: 0, '0'),
+           ('Draw', 'White'): (lambda d: 0, '0'), ('Draw', 'Black'): (lambda d: 0, '0')}
+    for k, (want, want_s) in exp.items():
+        gots = seen.get(k) or []
+        ok = bool(gots) and isinstance(ww, int) and isinstance(bw, int)
+        for val, _ in gots:
+            try:
+                for d in range(256):
+                    x = ev(val, {('p', 4): d})
+                    if wrap_int(x, 'i16') != want(d):
+                        ok = False
+                        break
+            except Unevaluable:
+                ok = False
+        inst = '%s of %s' % k if k[0] == 'Checkmate' else '%s (%s to move)' % k
+        ctx.ob(rule, name, '%s -> %s for every remaining depth 0..255' % (inst, want_s), ok,
+               found=[show(v) for v, _ in gots][:2] or None, expected=want_s,
                why='a mate with more depth remaining must score strictly better for the mating side; stalemate scores zero')
-        if got is not None:
-            ctx.ob(rule, name, '%s%s: verdict computed for the scored side on the same board' % (k[0], (' of ' + k[1]) if k[1] else ''),
-                   got[1][2][2] == ('p', 3) and got[1][2][0] == ('ref', ('der', ('p', 1))), found=show(got[1]), expected='game_ending(board, mg, current_turn)')
+        for _, call in gots[:1]:
+            ctx.ob(rule, name, '%s: verdict computed for the scored side on the same board' % inst,
+                   call[2][2] in (('p', 3), COLORS[k[1]]) and call[2][0] == ('ref', ('der', ('p', 1))), found=show(call), expected='game_ending(board, mg, current_turn)')
     ok = isinstance(ww, int) and isinstance(bw, int) and bw - 255 >= -32768 and ww + 255 <= 32767 and ww > 0 > bw
     ctx.ob(rule, EV + 'WHITE_WINS/BLACK_WINS', 'mate scores +-255 stay inside i16', ok, found={'WHITE_WINS': ww, 'BLACK_WINS': bw},
            expected='BLACK_WINS - 255 >= i16::MIN and WHITE_WINS + 255 <= i16::MAX')
